@@ -63,6 +63,14 @@ var c20Injs = []c20Inj{
 	{name: "continue-in-closed-switch", lines: []string{"switch (var(Q)) {", "case 1:", "continue", "}"}, errLine: 2, needLoop: true},
 	{name: "continue-not-last", lines: []string{"continue", "after"}, multi: true},
 	{name: "continue-not-last-in-if", lines: []string{"if (flag(Q)) {", "continue", "after", "}"}, errLine: 1},
+	// what follows the misplaced continue: a label (looks like a poryswitch case head), a scoped label, a compound, a keyword statement
+	{name: "continue-not-last-before-label", lines: []string{"continue", "AfterL:"}, multi: true},
+	{name: "continue-not-last-before-label-and-command", lines: []string{"continue", "AfterL:", "after"}, multi: true},
+	{name: "continue-not-last-before-scoped-label", lines: []string{"continue", "AfterL(global):"}, multi: true},
+	{name: "continue-not-last-before-if", lines: []string{"continue", "if (flag(Q)) {", "after", "}"}, multi: true},
+	{name: "continue-not-last-before-break", lines: []string{"continue", "break"}, multi: true},
+	{name: "continue-not-last-before-end", lines: []string{"continue", "end"}, multi: true},
+	{name: "continue-not-last-before-label-in-if", lines: []string{"if (flag(Q)) {", "continue", "AfterL:", "}"}, errLine: 1},
 	{name: "duplicate-case", lines: []string{"switch (var(Q)) {", "case 1:", "q", "case 2:", "case 1:", "r", "}"}, errLine: 4},
 	{name: "duplicate-case-adjacent", lines: []string{"switch (var(Q)) {", "case 3:", "case 3:", "r", "}"}, errLine: 2},
 	{name: "duplicate-case-via-const", lines: []string{"switch (var(Q)) {", "case 1:", "q", "case CONE:", "r", "}"}, errLine: 3},
